@@ -28,7 +28,7 @@ from . import c13
 DOC_CLAUSES = {"ClauseBracesBalanced", "ClauseSinglePicture", "ClauseStatementsTerminated",
                "ClauseColoursDefinedBeforePicture", "ClauseUnknownToken", "ClauseEscape", "ClauseLabelContent",
                "ClauseLabelOmittedOnlyWhenEqualToParent", "ClauseWrapKeepsWords", "ClauseWrapWidth",
-               "ClauseWrapNoMoreLinesThanGreedy"}
+               "ClauseWrapNoMoreLinesThanGreedy", "ClauseLeafNameEscaped"}
 COLOUR_CLAUSES = {"ClauseColourScope"}
 HTML = ["ff0000", "00aa00", "0000ff", "ff8800", "008888"]
 NAME_CHARS = "abXY01_\\"
@@ -127,6 +127,13 @@ def drawing_events(A, inp, m, fam, lab, seed):
     drawn = [[n["gene"], n["color"]] for n in parsed["nodes"] if n.get("gene")]
     col = [colours.get(u, "") for u in range(1, len(ot) + 1)]
     colour_events = [dict(base, op="colours", col=col, drawn=drawn, default="000000", problems=problems[:2])]
+    if fam == "dtl":   # extant objects are labelled <species>\\textsubscript{<id>}
+        oidx = {n: i for i, n in enumerate(onodes, start=1)}
+        for snode in snodes:
+            for gene, br in lay[snode].branches.items():
+                u = oidx.get(gene)
+                if u is not None and u in proj.leaves_of(ot):
+                    doc_events.append(dict(base, op="leafname", name=codes(leaf_names[u]), shown=codes(br.name)))
     if fam != "dtl":
         oidx = {n: i for i, n in enumerate(onodes, start=1)}
         for snode in snodes:
